@@ -48,13 +48,18 @@ TOKEN = "llx-0123456789abcdef0123456789abcdef"
 EMAIL = "dev@example.test"
 
 
-def oidc() -> DeviceOIDC:
-    return DeviceOIDC(device_name="dev", user_id="u1", email=EMAIL, client_id="c", discovery_url="https://d", device_access_token="t")
+EMAIL2 = "dev-renamed@example.test"
+
+
+def oidc(user: str = "u1", email: str = EMAIL) -> DeviceOIDC:
+    return DeviceOIDC(device_name="dev", user_id=user, email=email, client_id="c", discovery_url="https://d", device_access_token="t")
 
 
 OPS: list[tuple[str, ...]] = (
     [("env_add", u) for u in URLS] + [("env_switch", u) for u in URLS] + [("env_delete", u) for u in URLS]
-    + [("create_token", "none"), ("create_token", "key"), ("create_oidc",), ("select", "default"), ("select", "token"), ("select", "email"),
+    + [("create_token", "none"), ("create_token", "key"), ("create_oidc",),
+       # the same account logs in again after its e-mail address changed; a second account that owns that address
+       ("create_oidc", "u1", "renamed"), ("create_oidc", "u2", "renamed"), ("select", "default"), ("select", "token"), ("select", "email"),
        ("select_any",), ("set_project", "default"), ("delete_profile", "default"), ("delete_profile", "email")]
 )
 
@@ -92,7 +97,8 @@ class World:
                 a = self.auth().create_profile_from_token("proj", TOKEN if op[1] == "key" else None)
                 self.picked.add((before, a.name))
             elif kind == "create_oidc":
-                a = self.auth().create_or_update_profile_from_oidc("proj", oidc())
+                o = oidc() if len(op) == 1 else oidc(op[1], EMAIL2 if op[2] == "renamed" else EMAIL)
+                a = self.auth().create_or_update_profile_from_oidc("proj", o)
                 self.picked.add((before, a.name))
             elif kind == "select":
                 name = {"default": "default", "token": self._token_name(), "email": EMAIL}[op[1]]
